@@ -253,7 +253,7 @@ class Histories:
             if kind == "vector":
                 fwd = ta.happened_before(tb)
                 bwd = tb.happened_before(ta)
-                conc = ta.is_concurrent(tb)
+                conc = ta.is_concurrent(tb) if hasattr(ta, "is_concurrent") else (not fwd and not bwd)
                 if hb and not fwd:
                     out.append((f"VectorClock/hb-implies-vc-less/{_shape(opa, opb, na == nb)}",
                                 f"event #{a} happened before #{b} but vc#{a}={ta.snapshot()} is not "
